@@ -7,7 +7,7 @@ import HtmlVerif.Spec.Paths
 namespace HtmlVerif
 
 theorem inertN_lt {n : Nat} (h : inertN n = true) : n < 128 := by
-  simp only [inertN, isUnreservedN, Bool.or_eq_true, Bool.and_eq_true, decide_eq_true_eq, beq_iff_eq] at h
+  simp only [inertN, Bool.and_eq_true, decide_eq_true_eq] at h
   omega
 
 theorem inertN_facts : ∀ n, n < 128 → inertN n = true →
@@ -87,6 +87,33 @@ theorem safeSeg_last {s : Str} (h : SafeSeg s = true) : s.getLast? ≠ some '/' 
   intro e
   have hm : '/' ∈ s := List.mem_of_getLast? e
   exact (inertC_ne (safeSeg_inert h _ hm)).2.1 rfl
+
+/-! ### WideSeg: a single component over any characters -/
+
+theorem wideSeg_ne_nil {s : Str} (h : WideSeg s = true) : s ≠ [] := by
+  simp [WideSeg] at h; exact h.1.1.1.1
+
+theorem wideSeg_noSlash {s : Str} (h : WideSeg s = true) : '/' ∉ s := by
+  simp [WideSeg] at h; exact h.1.1.1.2
+
+theorem wideSeg_head {s : Str} (h : WideSeg s = true) : s.head? ≠ some '/' := by
+  intro e
+  exact wideSeg_noSlash h (List.mem_of_head? e)
+
+theorem wideSeg_last {s : Str} (h : WideSeg s = true) : s.getLast? ≠ some '/' := by
+  intro e
+  exact wideSeg_noSlash h (List.mem_of_getLast? e)
+
+theorem safeSeg_wide {s : Str} (h : SafeSeg s = true) : WideSeg s = true := by
+  have hi := safeSeg_inert h
+  have h1 : '/' ∉ s := fun hm => (inertC_ne (hi _ hm)).2.1 rfl
+  have h2 : Char.ofNat 0 ∉ s := by
+    intro hm
+    have := hi _ hm
+    revert this; decide
+  have hne := safeSeg_ne_nil h
+  simp [SafeSeg] at h
+  simp [WideSeg, h1, h2, hne, h.1.2, h.2]
 
 /-! ### CleanDir / CleanRel -/
 
